@@ -7,7 +7,7 @@
 (* application per step.  In every state TLC decides the statements of     *)
 (* UnaryEigRules.tla (INVARIANTs) and prints one JSON line: for a fixed    *)
 (* list of calls (apply_unary with exact scalar functions, exp, log, sqrt, *)
-(* isqrt, pow with 13 exponents, with and without the algorithm argument,  *)
+(* isqrt, pow with 12 exponents, with and without the algorithm argument,  *)
 (* eig with k = -1 .. n + 1, 'LM' / 'SM' / an unknown selector) the rules  *)
 (* fired in call order, the exception class, the class skeleton of the     *)
 (* result and - for exact scalar functions - the exact value, TLC's verdict *)
